@@ -51,6 +51,12 @@ Theorem C12_catch_state_consistent : forall i : catch_in, catch_in_ok i -> catch
 Proof. exact catch_generate_ok. Qed.
 Print Assumptions C12_catch_state_consistent.
 
+(* catch: generating twice gives the same state, for EVERY input (NaN accuracy included) *)
+Theorem C12_catch_idempotent : forall i : catch_in, catch_in_ok i ->
+  catch_generate (catch_feed_back i (catch_generate i)) = catch_generate i.
+Proof. exact catch_generate_idem. Qed.
+Print Assumptions C12_catch_idempotent.
+
 (* mania: for EVERY attribute shape, every subset of provided hit results, both priorities,
    classic or not, with or without accuracy.  The four nested candidate loops are covered without
    any assumption on their float bounds; the one hypothesis, `mania_accepts`, says that the
